@@ -43,3 +43,296 @@ def match(kf: list[dict], failure) -> dict | None:
 # ---------------------------------------------------------------------------
 # predicates are added below, next to the finding they describe
 # ---------------------------------------------------------------------------
+
+
+# ---- C12 / C13: odxtools/isotp_state_machine.py ---------------------------------------------
+@predicate("c12_fd_single_frame_escape")
+def c12_fd_single_frame_escape(f) -> bool:
+    """CAN-FD single frame (> 8 bytes, PCI byte 0x00, length in byte 1) is reported as an empty telegram;
+    the check assigns this bucket only if the reported lists equal the transmitted ones with exactly
+    these telegrams replaced by b''."""
+    return f.clause == "telegrams" and f.features.get("bucket") == "fd-sf-escape"
+
+
+@predicate("c13_short_frame_bitstruct_error")
+def c13_short_frame_bitstruct_error(f) -> bool:
+    """bitstruct.Error for a frame too short for its PCI: empty frame, or first frame of one byte"""
+    return (f.clause == "no-raise" and f.features.get("exc") == "Error" and f.features.get("short") is True
+            and f.features.get("kind") in ("empty", "ff") and f.features.get("monitored") is True)
+
+
+@predicate("c13_cf_without_first_frame")
+def c13_cf_without_first_frame(f) -> bool:
+    """AssertionError for a consecutive frame on an id that has not seen any (well-formed) first frame yet"""
+    return (f.clause == "no-raise" and f.features.get("exc") == "AssertionError" and f.features.get("kind") == "cf"
+            and f.features.get("no_first_frame") is True and f.features.get("short") is False)
+
+
+@predicate("c13_telegram_reported_twice")
+def c13_telegram_reported_twice(f) -> bool:
+    """a consecutive frame with the next sequence number after completion re-reports the finished telegram"""
+    return f.clause == "at-most-once" and f.features.get("kind") == "cf" and f.features.get("bucket") == "twice:cf"
+
+
+# ---- C18 (comparison / listing tools) ----------------------------------------------------------
+_C18_NOTHING = {"new": [], "deleted": [], "renamed": [], "changed": []}
+
+
+@predicate("c18_rename_reported_as_nothing")
+def _c18_rename_reported_as_nothing(f):
+    """cli/compare.py: the rename branch is an `elif` with the same condition as the `if` before it,
+    so a renamed service (same request prefix, new short name) is reported in none of the lists"""
+    return (f.clause == "classification" and f.features.get("edit") == "rename" and
+            f.features.get("via") in ("db", "dl") and f.features.get("observed") == _C18_NOTHING)
+
+
+@predicate("c18_delete_only_service_reported_as_nothing")
+def _c18_delete_only_service(f):
+    """cli/compare.py: deleted services are searched inside the loop over the services of the new
+    layer, so nothing is reported when the new layer has no service left"""
+    return (f.clause == "classification" and f.features.get("edit") == "delete" and
+            f.features.get("new_layer_services") == 0 and f.features.get("observed") == _C18_NOTHING)
+
+
+@predicate("c18_comparam_count_always_zero")
+def _c18_comparam_count_zero(f):
+    """cli/_print_utils.py: print_dl_metrics reads the misspelt attribute `comparams_refs`"""
+    return (f.clause == "metrics-comparams" and f.features.get("observed") == "0" and
+            (f.features.get("expected") or 0) > 0)
+
+
+@predicate("c18_service_tables_without_rows")
+def _c18_service_tables_without_rows(f):
+    """cli/_print_utils.py: extract_service_tabulation_data only adds rows when additional columns
+    are given, so the tables of new / deleted / renamed services are printed empty"""
+    rows = f.features.get("plain_table_rows")
+    return (f.clause == "display" and f.features.get("list") in ("new", "deleted", "renamed") and
+            bool(rows) and all(r == 0 for r in rows))
+
+
+# --- C06 (dispatch of messages to services) ---------------------------------
+@predicate("c06_failing_candidate_aborts")
+def c06_failing_candidate_aborts(f):
+    """DiagLayer.decode/decode_response raise DecodeError although a service matches exactly,
+    and the reference sees another candidate (service or sibling coding object) on the lookup
+    path that cannot take the message"""
+    return (f.clause in ("raised-despite-must", "response-via-request")
+            and f.features.get("exc") == "DecodeError" and f.features.get("cause") == "blocker"
+            and bool(f.features.get("blockers")))
+
+
+@predicate("c06_empty_prefix_never_found")
+def c06_empty_prefix_never_found(f):
+    """an exactly matching service is not reported (or DecodeError is raised) and every coding
+    object under which it matches has an empty constant prefix"""
+    if f.features.get("cause") != "empty-prefix":
+        return False
+    if f.clause == "missing-must":
+        return True
+    return f.clause in ("raised-despite-must", "response-via-request") and \
+        f.features.get("exc", "DecodeError") == "DecodeError"
+
+
+@predicate("c06_servicebinner_sid_encoding")
+def c06_servicebinner_sid_encoding(f):
+    """service_groups files a service under the wrong SID when the first constant is a
+    little-endian 16 bit constant or the low part of a sub-byte pair"""
+    return f.clause == "service-groups" and f.features.get("first_const") in ("cc16lh", "subbyte-lowfirst")
+
+
+@predicate("c06_partial_mrp_encodeerror")
+def c06_partial_mrp_encodeerror(f):
+    """EncodeError out of decode()/decode_response() on a layer with a MATCHING-REQUEST-PARAM that is
+    only partly covered by the constant prefix of the request"""
+    return (f.clause in ("raised-despite-must", "foreign-exception", "response-via-request")
+            and f.features.get("exc") == "EncodeError" and f.features.get("partial_mrp") is True)
+
+
+@predicate("c06_gnr_mrp_unbound")
+def c06_gnr_mrp_unbound(f):
+    """a service is reported through a global negative response whose MATCHING-REQUEST-PARAM
+    does not fit the constant prefix of that service's request"""
+    return (f.clause in ("extra-mustnot", "wrong-coding-object", "no-raise-when-unmatched")
+            and f.features.get("cause") == "gnr-mrp-unbound")
+
+
+# ---- C10 ---------------------------------------------------------------------
+@predicate("c10_import_leak")
+def c10_import_leak(f) -> bool:
+    """an unresolvable ID reference was accepted and bound to an object which only ANOTHER
+    layer imports (IMPORT-REF), looked up in that other layer's fragment or its container's
+    fragment: the shallow copy in DiagLayer._resolve_odxlinks leaked the imported ids"""
+    return f.clause == "must-raise" and f.features.get("leak") is True and \
+        f.features.get("why") in ("id-not-visible", "id-not-in-docref-fragment")
+
+
+@predicate("c10_duplicate_local_short_names")
+def c10_duplicate_local_short_names(f) -> bool:
+    """a short-name reference to a name carried by several objects of the referring layer
+    (not an ECU-SHARED-DATA) was accepted and bound to one of them"""
+    ft = f.features
+    return f.clause == "must-raise" and ft.get("why") == "ambiguous-local-name" and \
+        ft.get("layer_type") not in (None, "ECU-SHARED-DATA") and ft.get("bound") in (ft.get("candidates") or [])
+
+
+# ---------------------------------------------------------------------------
+# C15 — communication parameters.  The check labels a failing lookup / accessor with the smallest set
+# of recorded defects whose emulation in the reference model reproduces exactly the observed outcome
+# (features["explained_by"]); anything not reproduced that way has explained_by None and is reported.
+# ---------------------------------------------------------------------------
+@predicate("c15_generic_before_specific")
+def _c15_generic_before_specific(f):
+    """hierarchyelement.get_comparam(name, protocol=P): the unqualified COMPARAM-REF is returned although
+    one qualified with P is effective, because it comes first in comparam_refs"""
+    return (f.clause in ("get-comparam", "accessor") and
+            "generic-first" in (f.features.get("explained_by") or []))
+
+
+@predicate("c15_accessor_ignores_default")
+def _c15_accessor_ignores_default(f):
+    """get_can_baudrate / get_can_fd_baudrate / get_max_can_payload_size / uses_can_fd read
+    ComparamInstance.value instead of get_value(): empty value -> int('') / 8 / None instead of the default"""
+    return (f.clause == "accessor" and
+            f.features.get("accessor") in ("get_can_baudrate", "get_can_fd_baudrate", "get_max_can_payload_size") and
+            "raw-value" in (f.features.get("explained_by") or []))
+
+
+@predicate("c15_empty_subvalue_no_default")
+def _c15_empty_subvalue_no_default(f):
+    """ComparamInstance.get_subvalue: an empty SIMPLE-VALUE inside COMPLEX-VALUE is parsed as '' and returned
+    as such (the default fallback only triggers for None), typed accessors then raise ValueError from int('')"""
+    if "empty-subvalue" not in (f.features.get("explained_by") or []):
+        return False
+    if f.clause == "subvalue":
+        return f.features.get("default") is True and f.features.get("got") == ""
+    return f.clause == "accessor"
+
+
+# ---- C14 -------------------------------------------------------------------
+@predicate("c14_cache_bytearray_key")
+def c14_cache_bytearray_key(f):
+    """cache on: the bytearray returned by DiagService.encode_request() is used as dict key"""
+    return (f.clause == "exception" and f.features.get("bucket") == "cache-bytearray-key"
+            and f.features.get("cache") is True and f.features.get("exc") == "TypeError"
+            and "unhashable type: 'bytearray'" in str(f.features.get("msg")))
+
+
+@predicate("c14_coded_const_mismatch_decoded")
+def c14_coded_const_mismatch_decoded(f):
+    """the reported candidate differs from the reference, and is exactly the candidate the reference
+    reports when responses are (wrongly) allowed to decode answers whose coded constants mismatch"""
+    return (f.clause == "outcome" and f.features.get("bucket") == "coded-const-mismatch-decoded"
+            and f.features.get("lenient_explains") is True)
+
+
+# ---- C07 (compu methods, odxtools/compumethods/*) ---------------------------------------------
+_C07_LINEAR = ("LINEAR", "SCALE-LINEAR")
+_C07_VALUE_CLAUSES = ("i2p-value", "p2i-value", "roundtrip-value", "dop-decode", "dop-encode")
+
+
+@predicate("c07_scalelinear_invertibility_inverted")
+def c07_scalelinear_invertibility_inverted(f) -> bool:
+    """scalelinearcompumethod.py: `abs(y0 - y1) < 1e-10` marks *continuous* methods as non-invertible, so a
+    method that fulfils the ODX invertibility rule refuses to encode with the 'non-invertible' EncodeError"""
+    ft = f.features
+    return (ft.get("cat") == "SCALE-LINEAR" and f.clause in ("valid-converts", "roundtrip-raises")
+            and ft.get("exc") == "EncodeError" and "non-invertible SCALE-LINEAR" in (ft.get("exc_msg") or "")
+            and ft.get("odx_invertible") is True and (ft.get("nscales") or 0) >= 2)
+
+
+@predicate("c07_scalelinear_valid_physical_noninvertible")
+def c07_scalelinear_valid_physical_noninvertible(f) -> bool:
+    """scalelinearcompumethod.py: is_valid_physical_value ignores the invertibility analysis: values of a
+    method that does NOT fulfil the ODX invertibility rule are declared valid, converting raises"""
+    ft = f.features
+    return (ft.get("cat") == "SCALE-LINEAR" and f.clause == "valid-converts" and ft.get("exc") == "EncodeError"
+            and "non-invertible SCALE-LINEAR" in (ft.get("exc_msg") or "") and ft.get("odx_invertible") is False)
+
+
+@predicate("c07_linear_negative_denominator")
+def c07_linear_negative_denominator(f) -> bool:
+    """linearsegment.py: physical limits are swapped according to the sign of the factor instead of the
+    sign of factor/denominator; only methods with a negative denominator and non-zero factor"""
+    ft = f.features
+    return (ft.get("cat") in _C07_LINEAR and ft.get("neg_den") is True and
+            f.clause in ("image-valid", "valid-physical", "mc-encode", "roundtrip-raises", "valid-converts",
+                         "p2i-value", "roundtrip-value", "dop-encode"))
+
+
+@predicate("c07_constant_scale_open_limit")
+def c07_constant_scale_open_limit(f) -> bool:
+    """linearsegment.py: a constant scale (factor 0) with an OPEN internal limit gets an empty physical
+    interval; its constant cannot be encoded although the method is monotone and continuous"""
+    ft = f.features
+    return (ft.get("cat") == "SCALE-LINEAR" and f.clause == "mc-encode" and ft.get("mode") == "declared-False"
+            and ft.get("p_is_const_of_open_scale") is True)
+
+
+@predicate("c07_tabintp_truncation")
+def c07_tabintp_truncation(f) -> bool:
+    """tabintpcompumethod.py: integer results are produced with int() (cut off) instead of rounding"""
+    ft = f.features
+    return ft.get("cat") == "TAB-INTP" and f.clause in _C07_VALUE_CLAUSES and ft.get("mode") == "truncated"
+
+
+@predicate("c07_tabintp_descending_inverse")
+def c07_tabintp_descending_inverse(f) -> bool:
+    """tabintpcompumethod.py: the interpolation only looks at ascending sample intervals: physical values
+    that lie in no ascending interval of the table cannot be encoded (EncodeError), a value on a
+    constant interval divides by zero"""
+    ft = f.features
+    if ft.get("cat") != "TAB-INTP" or f.clause not in ("valid-converts", "roundtrip-raises", "dop-encode"):
+        return False
+    if ft.get("exc") == "EncodeError":
+        return ft.get("in_ascending_interval") is False or (
+            f.clause == "roundtrip-raises" and ft.get("tab_shape") == "descending")
+    if ft.get("exc") == "ZeroDivisionError":
+        return ft.get("on_flat_interval") is True or (
+            f.clause == "roundtrip-raises" and ft.get("tab_shape") == "flat")
+    return False
+
+
+@predicate("c07_texttable_default_direction")
+def c07_texttable_default_direction(f) -> bool:
+    """texttablecompumethod.py: is_valid_internal_value looks at the default of the physical->internal
+    direction and is_valid_physical_value at the default text of the internal->physical direction"""
+    ft = f.features
+    if ft.get("cat") != "TEXTTABLE":
+        return False
+    i2p, p2i = ft.get("default_i2p"), ft.get("default_p2i")
+    if f.clause == "valid-internal":
+        return ft.get("mode") == "declared-True" and p2i is True and i2p is False
+    if f.clause == "valid-physical":
+        return ft.get("mode") == "declared-True" and i2p is True and p2i is False
+    if f.clause == "valid-converts":
+        return ft.get("exc") == "EncodeError" and i2p is True and p2i is False
+    return False
+
+
+@predicate("c07_ratfunc_domain_type")
+def c07_ratfunc_domain_type(f) -> bool:
+    """ratfuncsegment.py: applies() type-checks the argument against the type of the result: float
+    arguments are rejected when the other side's type is integral"""
+    ft = f.features
+    if ft.get("cat") not in ("RAT-FUNC", "SCALE-RAT-FUNC"):
+        return False
+    if f.clause == "valid-internal":
+        return (ft.get("mode") == "declared-False" and ft.get("it") == "float" and ft.get("pt") == "int"
+                and ft.get("value_float") is True)
+    if f.clause == "valid-physical":
+        return (ft.get("mode") == "declared-False" and ft.get("it") == "int" and ft.get("pt") == "float"
+                and ft.get("value_float") is True)
+    if f.clause == "image-valid":
+        return ft.get("it") == "int" and ft.get("pt") == "float" and ft.get("image_float") is True
+    return False
+
+
+@predicate("c07_linear_tie_open_limit")
+def c07_linear_tie_open_limit(f) -> bool:
+    """linearsegment.py: round() rounds halves to even, so with slope +-1 and a half-integral offset the
+    image of an OPEN integer limit and the image of its valid neighbour coincide; the neighbour's image is
+    declared invalid"""
+    ft = f.features
+    return (ft.get("cat") in _C07_LINEAR and f.clause == "image-valid" and ft.get("mode") == "tie"
+            and ft.get("it") == "int" and ft.get("pt") == "int")
+
